@@ -712,6 +712,12 @@ func runEngineC(p *Prog, o *obls) {
 	}
 	for fk := range wanted {
 		if resolved[fk] == 0 {
+			if gone, typeExists := fieldGone(p, fk); gone && typeExists {
+				// the type is still there but has no such field any more (removed, or regrouped into a sub-struct):
+				// nothing of that name is left to guard; whatever replaced it is an unlisted field, covered by C4
+				o.note("C1", fk, "-", "the guard table names this field but the type no longer has it (removed or regrouped): the type's unlisted fields are checked by C4")
+				continue
+			}
 			o.undecided("C1", fk, "-", "anchor unresolved: the guard table names this field but no shared access to it was found (checker needs update)")
 		}
 	}
@@ -747,10 +753,51 @@ func runC7(p *Prog, o *obls, la *lockAnalysis) {
 		}
 		var bad []string
 		for _, l := range li.leaks {
+			if !leakPathFeasible(p, l) {
+				continue // every unlock-free path from the acquisition to this return contradicts itself (`if c {Lock}` … `if c {Unlock}`)
+			}
 			bad = append(bad, fmt.Sprintf("the return at %s can be reached with %s still held (acquired at %s, no deferred unlock): every later user of the object blocks", p.instrPos(l.ret), l.lock, p.instrPos(l.at)))
+		}
+		if len(bad) == 0 {
+			o.ok("C7", key, p.Pos(fn.Pos()), fmt.Sprintf("%d acquisition(s), each released on every feasible path to a return (conditional lock/unlock pairs under the same condition)", li.nAcq))
+			continue
 		}
 		sort.Strings(bad)
 		o.bad("C7", key, p.Pos(fn.Pos()), strings.Join(dedupe(bad), "; "))
+	}
+}
+
+// fieldGone: fk = "pkg.Type.field"; reports whether the type exists and whether it lacks a field of that (canonical) name.
+func fieldGone(p *Prog, fk string) (gone, typeExists bool) {
+	i := strings.LastIndex(fk, ".")
+	t := p.namedByKey(fk[:i])
+	if t == nil {
+		return true, false
+	}
+	st, ok := t.Underlying().(*types.Struct)
+	if !ok {
+		return true, true
+	}
+	for j := 0; j < st.NumFields(); j++ {
+		if cFieldName(st.Field(j)) == fk[i+1:] {
+			return false, true
+		}
+	}
+	return true, true
+}
+
+// outermostField climbs from a field address through enclosing struct-valued fields (s.inner.x → s.inner) to the field of
+// the outermost struct that is held by value; stores into a regrouped sub-struct count as stores to that field.
+func outermostField(fa *ssa.FieldAddr) *ssa.FieldAddr {
+	for {
+		outer, ok := fa.X.(*ssa.FieldAddr)
+		if !ok {
+			return fa
+		}
+		if _, isStruct := deref(outer.Type()).Underlying().(*types.Struct); !isStruct {
+			return fa
+		}
+		fa = outer
 	}
 }
 
@@ -1074,6 +1121,7 @@ func runC4(p *Prog, o *obls, la *lockAnalysis, wanted map[string]bool) {
 			if !ok {
 				return
 			}
+			fa = outermostField(fa)
 			tk := typeKey(fa.X.Type())
 			if !lockTypes[tk] || confined[tk] {
 				return
@@ -1111,18 +1159,31 @@ func runC4(p *Prog, o *obls, la *lockAnalysis, wanted map[string]bool) {
 				if _, isW := writes[fk]; !isW || !sharedBase(p, fn, fa.X) {
 					return
 				}
-				for _, r := range *fa.Referrers() {
-					switch x := r.(type) {
-					case *ssa.Store:
-						if x.Addr == ssa.Value(fa) {
-							accs[fk] = append(accs[fk], accLS{la.info[fn].before[x], true})
+				var classify func(addr ssa.Value, d int)
+				classify = func(addr ssa.Value, d int) {
+					if addr.Referrers() == nil || d > 4 {
+						return
+					}
+					for _, r := range *addr.Referrers() {
+						switch x := r.(type) {
+						case *ssa.Store:
+							if x.Addr == addr {
+								accs[fk] = append(accs[fk], accLS{la.info[fn].before[x], true})
+							}
+						case *ssa.UnOp:
+							accs[fk] = append(accs[fk], accLS{la.info[fn].before[x], false})
+						case *ssa.FieldAddr:
+							// a field of a sub-struct held by value: classify by what is done with that address
+							if x.X == addr {
+								classify(x, d+1)
+							}
+						case *ssa.DebugRef:
+						default:
+							accs[fk] = append(accs[fk], accLS{la.info[fn].before[r], true})
 						}
-					case *ssa.UnOp:
-						accs[fk] = append(accs[fk], accLS{la.info[fn].before[x], false})
-					default:
-						accs[fk] = append(accs[fk], accLS{la.info[fn].before[r], true})
 					}
 				}
+				classify(fa, 0)
 			})
 		}
 		for fk, as := range accs {
@@ -1785,4 +1846,69 @@ func canReachAvoiding(a, b, avoid ssa.Instruction) bool {
 		return false
 	}
 	return walk(start)
+}
+
+// leakPathFeasible: there is a path from the acquisition to the return that executes no unlock of the lock and whose
+// branch conditions (canonical keys, strictly pure or computed once) do not contradict each other or the facts that
+// dominate the acquisition.
+func leakPathFeasible(p *Prog, l lockLeak) bool {
+	start := l.at.Block()
+	isUnlock := func(in ssa.Instruction) bool {
+		if c, ok := in.(*ssa.Call); ok {
+			if op, ok := lockOpOf(&c.Call); ok && op.id == l.lock && (op.kind == "Unlock" || op.kind == "RUnlock") {
+				return true
+			}
+		}
+		return false
+	}
+	facts := map[string]bool{}
+	for _, f := range dominatingFacts(start) {
+		f = normFact(f)
+		if k, ct, ok := p.canonFact(f.cond, f.truth); ok {
+			facts[k] = ct
+		}
+	}
+	budget := 4000
+	var walk func(b *ssa.BasicBlock, from int, facts map[string]bool, onPath map[*ssa.BasicBlock]int) bool
+	walk = func(b *ssa.BasicBlock, from int, facts map[string]bool, onPath map[*ssa.BasicBlock]int) bool {
+		budget--
+		if budget < 0 {
+			return true // give up: report
+		}
+		for i := from; i < len(b.Instrs); i++ {
+			if isUnlock(b.Instrs[i]) {
+				return false
+			}
+			if b.Instrs[i] == ssa.Instruction(l.ret) {
+				return true
+			}
+		}
+		c := ifCond(b)
+		for si, sc := range b.Succs {
+			if onPath[sc] >= 2 {
+				continue
+			}
+			nf := facts
+			if c != nil && b.Succs[0] != b.Succs[1] {
+				f := normFact(condFact{c, si == 0})
+				if k, ct, ok := p.canonFact(f.cond, f.truth); ok {
+					if old, has := facts[k]; has && old != ct {
+						continue
+					}
+					nf = map[string]bool{}
+					for kk, vv := range facts {
+						nf[kk] = vv
+					}
+					nf[k] = ct
+				}
+			}
+			onPath[sc]++
+			if walk(sc, 0, nf, onPath) {
+				return true
+			}
+			onPath[sc]--
+		}
+		return false
+	}
+	return walk(start, instrIndex(l.at)+1, facts, map[*ssa.BasicBlock]int{start: 1})
 }
